@@ -24,3 +24,12 @@ if r.get('spec_case'):
     print('specification: ', run(C.BUILD + '/spec_oracle', r.get('oracle_cmd', cmd), r['spec_case']))
 if r.get('case') and r.get('property') == 'C16':
     print('implementation:', run(C.BUILD + '/harness', 'bytes', r['case']))
+if r.get('case') and r.get('property') == 'C06':
+    # C06: the rig script / program is replayed, every snapshot is judged by the extracted invariant
+    hc = r.get('command', 'harness msi-rig').split()[-1]
+    with tempfile.NamedTemporaryFile('w', suffix='.case', delete=False) as f:
+        f.write(r['case'] + '\n')
+    sh = '%s/harness %s %s | %s/msi_oracle cases -' % (C.BUILD, hc, f.name, C.BUILD)
+    p = subprocess.run(sh, shell=True, capture_output=True, text=True, env=C.ENV, timeout=600)
+    print('implementation judged by the extracted invariant:', (p.stdout + p.stderr).strip()[:3000])
+    os.unlink(f.name)
